@@ -1,6 +1,9 @@
 package wb
 
-import "testing"
+import (
+	"os"
+	"testing"
+)
 
 func TestAllocSite(t *testing.T) {
 	d := "fatal error: out of memory\n\ngoroutine 1 gp=0x1 m=0 mp=0x2 [running]:\nruntime.throw({0x105474d?, 0x0?})\n\t/x/panic.go:1229 +0x48 fp=0x1 sp=0x2 pc=0x3\nruntime.makeslice(0x1, 0x2, 0x3)\n\t/x/slice.go:117 +0x49\ngithub.com/apache/arrow-go/v18/arrow/memory.(*GoAllocator).Allocate(...)\n\t/x/a.go:1\ngithub.com/apache/arrow-go/v18/arrow/ipc.(*messageReader).Message(0xc000)\n\t/x/message.go:220 +0x1\ngithub.com/Query-farm/vgi-rpc-go/vgirpc.ReadRequest({0x1, 0x2})\n"
@@ -21,4 +24,16 @@ func TestPanicSite(t *testing.T) {
 	if got := PanicSite(p); got[:41] != "vgirpc.HttpServer.handleStreamExchange:in" {
 		t.Fatalf("got %q", got)
 	}
+}
+
+func TestWalkVtableSizeOddity(t *testing.T) {
+	b, err := os.ReadFile("testdata/vtable-size-odd.bin")
+	if err != nil {
+		t.Skip("no sample")
+	}
+	rep := Walk(b)
+	if rep.Class == WellFramed {
+		t.Fatalf("class %s fault %q", rep.Class, rep.Fault)
+	}
+	t.Logf("class %s fault %q declared %d", rep.Class, rep.Fault, rep.Declared)
 }
